@@ -22,6 +22,9 @@ for P in "$@"; do
   if [ "$P" = "C16" ]; then
     go build -modfile="$BASE/go.mod" -race -tags verif -o "$ROOT/bin/verifmon-race" ./cmd/verifmon 2>> "$ROOT/.work/build.log" || { echo "$NAME race-build-failed"; continue; }
   fi
+  if [ "$P" = "C20" ]; then
+    (cd "$WT" && go build -o "$ROOT/bin/goneat-runner" . ) 2>> "$ROOT/.work/build.log" && export VERIFMON_RUNNER="$ROOT/bin/goneat-runner"
+  fi
   out=$(cd "$ROOT" && VERIF_ROOT="$ROOT" VERIF_REPO="$WT" VERIFMON_RACE="$ROOT/bin/verifmon-race" ./bin/verifmon "$P" "$TIER" 2>&1); rc=$?
   line=$(echo "$out" | grep -E '^\s+\[|INCONCLUSIVE' | head -1 | cut -c1-260)
   [ -z "$line" ] && line=$(echo "$out" | tail -1 | cut -c1-160)
